@@ -530,3 +530,41 @@ package cache
 //@ func (*Cache).LatencyWindows
 //@   props C12
 //@   requires c != nil
+
+// ---- the periodic refreshes (UpdateMetadata / UpdateSize) --------------------------------
+// Every registered target is refreshed with the registered feed callback, under the cache's read lock.
+//@ func param fn in (*Cache).updateCache (t, cl)
+//@   requires TargetWf(t) && t.name != "" && cl != nil
+//@   modifies ghost tstore, ghost treal, ghost intAdded, ghost boolSets, ghost lastBool, ghost strSets, ghost lastStr, ghost latSamples, ghost lastSampleTs, ghost lastSynced, ghost owed, ghost updSteps, ghost queried, heap(ctree.Tree.leafBranch), heap(Target.sync)
+//@ func (*Cache).updateCache
+//@   props C15 C14 C12
+//@   locks c
+//@   requires c != nil && fn != nil
+//@   modifies ghost tstore, ghost treal, ghost intAdded, ghost boolSets, ghost lastBool, ghost strSets, ghost lastStr, ghost latSamples, ghost lastSampleTs, ghost lastSynced, ghost owed, ghost updSteps, ghost queried, heap(ctree.Tree.leafBranch), heap(Target.sync)
+//@   invokes fn(t, cl) where TargetWf(t) && t.name != "" && cl != nil
+//@   assert at call param fn#0: [each-registered-target-with-the-registered-feed C15] arg0 == target && arg1 == c.client && rheld(c.mu)
+// (UpdateMetadata hands (*Target).updateMeta to updateCache the same way; it is not under contract: the re-invocation
+// rule for callbacks would need "every stored value of every target stays well formed" carried through the whole ingest
+// chain as a frame-like invariant, which made other proofs of this package unstable when tried.)
+//@ func (*Cache).UpdateSize
+//@   props C15 C12
+//@   requires c != nil && Globals()
+//@   modifies *
+// The size refresh sums the marshalled sizes of the stored values and records the sum.
+//@ func (*Target).updateSize
+//@   props C15 C12
+//@   requires TargetWf(t)
+//@   modifies *
+//@   assert at call (*Tree).Query#0: [whole-tree-walk C15] arg0 == t.t && len(arg1) == 1 && arg1[0] == "*"
+//@   assert at call (*Metadata).SetInt#0: [sum-recorded-as-the-target-size C15] arg0 == t.meta && arg1 == "targetSize" && arg2 == s
+//@ func (*Target).updateSize$1
+//@   props C15 C12
+//@   ensures res0 >= 0
+//@ func captured size in (*Target).updateSize$2 (n)
+//@   ensures res0 >= 0
+//@ func (*Target).updateSize$2
+//@   props C15 C12
+//@   arith wrap
+//@   requires size != nil
+//@   modifies captured s
+//@   ensures res0 == nil
